@@ -341,6 +341,13 @@ Lemma filter_true {A} (l : list A) : filter (fun _ => true) l = l.
 Proof. induction l as [|a l IH]; cbn; [reflexivity|rewrite IH; reflexivity]. Qed.
 
 (** a table whose column [x] (found by [pos_first]) holds node ids in every row *)
+Definition is_ent (c : cell) : Prop := match c with CVal _ => False | _ => True end.
+Definition nonanon (c : string) : bool := negb (String.eqb c anon).
+(** the shape of a chain table: full rows of entity cells, distinct column names (anonymous edge
+    columns aside) *)
+Definition wfc (t : tbl) : Prop :=
+  NoDup (filter nonanon (cols t)) /\
+  forall r, List.In r (rows t) -> List.length (cols t) = List.length r /\ Forall is_ent r.
 Definition good (t : tbl) (x : string) (i : nat) : Prop :=
   pos_first x (cols t) = Some i /\
   forall r, List.In r (rows t) -> List.length (cols t) = List.length r /\ exists z, nth_error r i = Some (CNode z).
@@ -357,7 +364,7 @@ Definition hop_fresh (cs : list string) (h : hop) : Prop :=
   existsb (String.eqb (np_var (h_to h))) cs = false /\
   String.eqb (np_var (h_to h)) (edge_col (h_evar h)) = false /\
   String.eqb (np_var (h_to h)) anon = false /\
-  match h_evar h with Some e => String.eqb e anon = false | None => True end.
+  match h_evar h with Some e => String.eqb e anon = false /\ existsb (String.eqb e) cs = false | None => True end.
 
 Lemma expand_sem st t x i h :
   good t x i -> hop_fresh (cols t) h ->
